@@ -236,16 +236,23 @@ def arith(sym, a, b):
         return UNDEF
     for x in (a, b):
         if isinstance(x, int) and abs(x) > 2 ** 1023:
-            # exact integers beyond (or at the edge of) the double range:
-            # Excel has none, the library keeps some; not pinned down
-            return UNDEF
+            # exact integers BEYOND the double range: Excel has none, the
+            # library keeps some; not pinned down.  (Those of the top
+            # binade, 2^1023 .. 1.797e308, are ordinary numbers.)
+            try:
+                float(x)
+            except OverflowError:
+                return UNDEF
     try:
-        if sym == '+':
-            return a + b
-        if sym == '-':
-            return a - b
-        if sym == '*':
-            return a * b
+        if sym in ('+', '-', '*'):
+            r = a + b if sym == '+' else a - b if sym == '-' else a * b
+            if isinstance(r, int) and abs(r) > 2 ** 1023:
+                try:
+                    float(r)
+                except OverflowError:
+                    # a whole result no double can hold (fix 6a57518)
+                    return NUM if max(abs(a), abs(b)) > 2 ** 1023 else r
+            return r
         if sym == '/':
             if b == 0:
                 return DIV0
